@@ -206,6 +206,7 @@ theorem Reachable.dagComplete {b : Book} (r : Reachable b) : DagComplete b := by
   | trust a _ ih => exact ih.tr (Tr.misc (coreEq_addTrusted _ a))
   | untrust a _ ih => exact ih.tr (Tr.misc (coreEq_removeTrusted _ a))
   | truncate cut _ ih => exact ih.truncate cut
+  | steps _ s ih => exact ih.steps s
 
 
 /-! ### vertices without declared parents have no incoming edges -/
@@ -271,6 +272,7 @@ theorem Reachable.rootsBare {b : Book} (r : Reachable b) : RootsBare b := by
   | @retry b r0 ih => exact ih.steps r0.edgeInv (steps_retryParked _ r0.inv.parkOk)
   | trust a r0 ih => exact ih.tr r0.edgeInv (Tr.misc (coreEq_addTrusted _ a))
   | untrust a r0 ih => exact ih.tr r0.edgeInv (Tr.misc (coreEq_removeTrusted _ a))
+  | steps r0 s ih => exact ih.steps r0.edgeInv s
   | @truncate b cut r0 ih =>
     cases hr : (b.truncateAt cut).2 with
     | error e => rw [truncateAt_err hr]; exact ih
